@@ -525,6 +525,14 @@ class RawOrigin(Behaviour):
                     conn.outbox.append((self.finally_,))
 
 
+class CloseOnAccept(Behaviour):
+    """Peer that hangs up the instant the connection is established (e.g. stands in for a TLS
+    endpoint: a blocking handshake in the SUT then fails at once instead of waiting)."""
+
+    def on_accept(self, conn):
+        conn.close()
+
+
 class HttpOrigin(Behaviour):
     """HTTP origin: h11 parses what arrives; after the k-th complete request it sends the
     k-th scripted response (list of pieces), then the optional action ('close'/'shutdown_wr')."""
